@@ -8,6 +8,7 @@ echo "| seed | applies | own check (quick) | other checks run |" > $out
 echo "|---|---|---|---|" >> $out
 for d in seeded/*/; do
   name=$(basename $d); id=${name%%_*}
+  grep -q obsolete_since $d/meta.json && { echo "| $name | obsolete (neutralised by a later fix, see meta.json) | | |" >> $out; continue; }
   res=$(tools/seed_run.sh $name $id $extra 2>&1)
   own=$(echo "$res" | grep "^== $name vs $id:" | sed 's/.*: //')
   others=$(echo "$res" | grep "^== $name vs " | grep -v "vs $id:" | sed "s/^== $name vs //" | tr '\n' ';')
